@@ -206,7 +206,7 @@ Proof.
   - inversion Ab as [|? ? Hm Hrest]; subst. inversion D as [|? ? Dm Drest]; subst.
     set (cn1 := set_c_buf (s_conn s c) rest) in *.
     set (s1 := set_conn s c cn1) in *.
-    set (s2 := set_s_log s1 (s_log s1 ++ [{| d_e := e; d_tag := m_tag m; d_id := m_id m |}])) in *.
+    set (s2 := set_s_log s1 (s_log s1 ++ [{| d_e := e; d_tag := m_tag m; d_id := m_id m; d_head := true |}])) in *.
     set (x3 := set_x_pay (set_x_closed (set_x_st (s_x s e) XHead) false) (m_pay m)) in *.
     set (s3 := set_exch s2 e x3) in *.
     assert (K1 : Core s1).
